@@ -465,7 +465,7 @@ func parseCase(line string) (*fcase, error) {
 
 // ---- generator ----
 
-func genCase(r *gen.Rand, o *gen.Out) *fcase {
+func genCase(r *gen.Rand, o *gen.Out, fanOnly bool) *fcase {
 	c := &fcase{scripts: map[int][]reply{}}
 	switch r.Pick(3, 3, 3, 1) {
 	case 0:
@@ -489,6 +489,9 @@ func genCase(r *gen.Rand, o *gen.Out) *fcase {
 		cur = p
 	}
 	nb := []int{1, 1, 1, 2, 2, 3}[r.Intn(6)]
+	if fanOnly {
+		nb = r.Range(2, 4)
+	}
 	o.Count(fmt.Sprintf("procs=%d", np))
 	o.Count(fmt.Sprintf("branches=%d", nb))
 	for b := 0; b < nb; b++ {
